@@ -1,0 +1,39 @@
+//go:build verif
+
+package nebula
+
+import (
+	"log/slog"
+	"net/netip"
+
+	"github.com/slackhq/nebula/cert"
+	"github.com/slackhq/nebula/config"
+)
+
+// Thin exports for the verification harness (engine `pkireload`); no behaviour.
+
+func VerifNewPKI(l *slog.Logger) *PKI { return &PKI{l: l} }
+
+func (p *PKI) VerifReloadCerts(c *config.C, initial bool) error {
+	if err := p.reloadCerts(c, initial); err != nil {
+		return err
+	}
+	return nil
+}
+
+func (p *PKI) VerifReloadCAPool(c *config.C) error {
+	if err := p.reloadCAPool(c); err != nil {
+		return err
+	}
+	return nil
+}
+
+// VerifCertState returns the certificates in use, the overlay networks derived from them and the
+// initiating version; ok is false before the first successful load.
+func (p *PKI) VerifCertState() (v1, v2 cert.Certificate, networks []netip.Prefix, initiating cert.Version, ok bool) {
+	cs := p.cs.Load()
+	if cs == nil {
+		return nil, nil, nil, 0, false
+	}
+	return cs.v1Cert, cs.v2Cert, cs.myVpnNetworks, cs.initiatingVersion, true
+}
